@@ -1,1 +1,219 @@
-(* placeholder *)
+(* Proofs about the event-level entity model (Abs/Entities.v): property C01 (convergence, with the
+   exact classes of traces for which the real protocol does NOT converge) and the traffic bound
+   used by C09. *)
+From Coq Require Import NArith List Bool Lia.
+From stdpp Require Import gmap list.
+From BS Require Import Abs.Entities.
+Local Open Scope N_scope.
+
+(* ================================================================================================
+   0. Non-vacuity: the model runs (3 peers)
+   ================================================================================================ *)
+
+(* host spawn (10), client spawn (11), late join of 2 while traffic is in flight, live spawn (12)
+   that reaches 2 twice (live + snapshot), client-2 spawn (13) relayed to 1, delete by client 1
+   relayed to 2, delete by the host. *)
+Definition ex_trace : list event :=
+  [EvConnect 1; EvDeliver 1 0; EvDeliver 0 1;
+   EvSpawn 0 10; EvSpawn 1 11; EvConnect 2; EvSpawn 0 12; EvDeliver 2 0; EvSpawn 2 13;
+   EvDeliver 1 0; EvDeliver 2 0;
+   EvDeliver 0 1; EvDeliver 0 1; EvDeliver 0 1;
+   EvDeliver 0 2; EvDeliver 0 2; EvDeliver 0 2; EvDeliver 0 2; EvDeliver 0 2;
+   EvDespawn 1 12; EvDeliver 1 0; EvDeliver 0 2;
+   EvDespawn 0 10; EvDeliver 0 1; EvDeliver 0 2].
+
+Definition ex_view (s : astate) :=
+  (get_ents s 0, get_ents s 1, get_ents s 2, conn s, synced s, quiescentb s, agreeb s, sent s).
+
+Example ex_trace_runs :
+  ex_view <$> run init ex_trace = Some ([13; 11], [13; 11], [11; 13], [2; 1], [2; 1], true, true, 17).
+Proof. vm_compute. reflexivity. Qed.
+
+Example ex_trace_is_clean :
+  (known_S11 ex_trace, known_S18 ex_trace, known_S18_window ex_trace,
+   spec_alive ex_trace, dropped_uuids ex_trace) = (false, false, false, [11; 13], []).
+Proof. vm_compute. reflexivity. Qed.
+
+(* the late joiner really receives uuid 12 twice *)
+Example ex_trace_live_duplicate :
+  (fun s => get_link s 0 2) <$> run init (firstn 8 ex_trace)
+  = Some [ESpawn 12; ESpawn 12; ESpawn 10; EFinInit].
+Proof. vm_compute. reflexivity. Qed.
+
+(* ================================================================================================
+   1. Lists
+   ================================================================================================ *)
+
+Lemma remove1_subseteq u l v : v ∈ remove1 u l -> v ∈ l.
+Proof.
+  induction l as [|x l IH]; simpl; [done|].
+  destruct (decide (x = u)); set_solver.
+Qed.
+
+Lemma remove1_other u l v : v ∈ l -> v <> u -> v ∈ remove1 u l.
+Proof.
+  induction l as [|x l IH]; simpl; [done|].
+  intros Hin Hne. destruct (decide (x = u)); set_solver.
+Qed.
+
+Lemma remove1_NoDup u l : NoDup l -> NoDup (remove1 u l).
+Proof.
+  induction l as [|x l IH]; simpl; [done|].
+  intros Hnd. apply NoDup_cons in Hnd as [Hx Hnd].
+  destruct (decide (x = u)); [done|].
+  apply NoDup_cons. split; [|auto]. intros Hin. apply Hx. eapply remove1_subseteq; eauto.
+Qed.
+
+Lemma remove1_not_in u l : NoDup l -> u ∉ remove1 u l.
+Proof.
+  induction l as [|x l IH]; simpl; [set_solver|].
+  intros Hnd. apply NoDup_cons in Hnd as [Hx Hnd].
+  destruct (decide (x = u)); [by subst|]. set_solver.
+Qed.
+
+Lemma remove1_absent u l : u ∉ l -> remove1 u l = l.
+Proof.
+  induction l as [|x l IH]; simpl; [done|].
+  intros Hn. destruct (decide (x = u)); [set_solver|]. f_equal. apply IH. set_solver.
+Qed.
+
+Lemma remove1_length u l : u ∈ l -> S (length (remove1 u l)) = length l.
+Proof.
+  induction l as [|x l IH]; simpl; [set_solver|].
+  intros Hin. destruct (decide (x = u)); [done|]. simpl. f_equal. apply IH. set_solver.
+Qed.
+
+Lemma after_msgs_app u b q1 q2 : after_msgs u b (q1 ++ q2) = after_msgs u (after_msgs u b q1) q2.
+Proof. apply foldl_app. Qed.
+
+Lemma after_msgs_cons u b m q : after_msgs u b (m :: q) = after_msgs u (after_msg u b m) q.
+Proof. reflexivity. Qed.
+
+Lemma after_msgs_snoc u b q m : after_msgs u b (q ++ [m]) = after_msg u (after_msgs u b q) m.
+Proof. rewrite after_msgs_app. reflexivity. Qed.
+
+(* no message about u: membership unchanged *)
+Lemma after_msgs_no_mention u b q :
+  ESpawn u ∉ q -> EDelete u ∉ q -> after_msgs u b q = b.
+Proof.
+  revert b. induction q as [|m q IH]; intros b Hs Hd; [done|].
+  rewrite after_msgs_cons, IH by set_solver.
+  destruct m as [v|v| |]; simpl; try done; destruct (decide (v = u)); set_solver.
+Qed.
+
+Lemma after_msgs_no_spawn u q : ESpawn u ∉ q -> after_msgs u false q = false.
+Proof.
+  induction q as [|m q IH] using rev_ind; intros Hs; [done|].
+  rewrite after_msgs_snoc, IH by set_solver.
+  destruct m as [v|v| |]; simpl; try done; destruct (decide (v = u)); set_solver.
+Qed.
+
+Lemma after_msgs_true_inv u b q : after_msgs u b q = true -> b = true \/ ESpawn u ∈ q.
+Proof.
+  induction q as [|m q IH] using rev_ind; intros Ht; [by left|].
+  rewrite after_msgs_snoc in Ht.
+  destruct m as [v|v| |]; simpl in Ht;
+    try (destruct (IH Ht) as [?|?]; [by left|right; set_solver]);
+    destruct (decide (v = u)) as [->|]; try done;
+    try (destruct (IH Ht) as [?|?]; [by left|right; set_solver]).
+  right. set_solver.
+Qed.
+
+(* the snapshot: everything in l ends up present *)
+Lemma after_msgs_spawns u b l :
+  after_msgs u b (ESpawn <$> l) = b || bool_decide (u ∈ l).
+Proof.
+  revert b. induction l as [|x l IH]; intros b.
+  - rewrite bool_decide_eq_false_2 by set_solver. by rewrite orb_false_r.
+  - rewrite fmap_cons, after_msgs_cons, IH. simpl. destruct (decide (x = u)) as [->|Hne].
+    + rewrite (bool_decide_eq_true_2 (u ∈ u :: l)) by set_solver. by rewrite orb_true_r.
+    + destruct (decide (u ∈ l)).
+      * rewrite !bool_decide_eq_true_2 by set_solver. done.
+      * rewrite !bool_decide_eq_false_2 by set_solver. done.
+Qed.
+
+Lemma after_msgs_snapshot u b l :
+  after_msgs u b ((ESpawn <$> l) ++ [EFinInit]) = b || bool_decide (u ∈ l).
+Proof. rewrite after_msgs_snoc. simpl. apply after_msgs_spawns. Qed.
+
+(* ================================================================================================
+   2. Views of the primitive updates
+   ================================================================================================ *)
+
+Section prims.
+  Implicit Types (s : astate) (a b c p : peer) (u : uuid) (m : emsg).
+
+  Lemma get_link_send s a b ms a' b' :
+    get_link (send s a b ms) a' b' =
+      if decide ((a, b) = (a', b')) then get_link s a b ++ ms else get_link s a' b'.
+  Proof.
+    unfold get_link at 1. simpl. destruct (decide ((a, b) = (a', b'))) as [<-|Hne].
+    - by rewrite lookup_insert.
+    - by rewrite lookup_insert_ne.
+  Qed.
+
+  Lemma get_link_set_link s a b q a' b' :
+    get_link (set_link s a b q) a' b' = if decide ((a, b) = (a', b')) then q else get_link s a' b'.
+  Proof.
+    unfold get_link at 1. simpl. destruct (decide ((a, b) = (a', b'))) as [<-|Hne].
+    - by rewrite lookup_insert.
+    - by rewrite lookup_insert_ne.
+  Qed.
+
+  Lemma get_link_drop s c a b :
+    get_link (drop_links s c) a b =
+      if decide ((a, b) = (0, c) \/ (a, b) = (c, 0)) then [] else get_link s a b.
+  Proof.
+    unfold get_link at 1. simpl. destruct (decide _) as [[->| ->]|Hne].
+    - by rewrite lookup_delete.
+    - destruct (decide ((0, c) = (c, 0))) as [->|?]; [by rewrite lookup_delete|].
+      rewrite lookup_delete_ne by done. by rewrite lookup_delete.
+    - rewrite !lookup_delete_ne by (intros Heq; apply Hne; rewrite <- Heq; auto). done.
+  Qed.
+
+  Lemma get_ents_set_ents s p l p' :
+    get_ents (set_ents s p l) p' = if decide (p = p') then l else get_ents s p'.
+  Proof.
+    unfold get_ents at 1. simpl. destruct (decide (p = p')) as [<-|Hne].
+    - by rewrite lookup_insert.
+    - by rewrite lookup_insert_ne.
+  Qed.
+
+  (* bcast: all other fields *)
+  Lemma bcast_fields s cs m :
+    ents (bcast s cs m) = ents s /\ conn (bcast s cs m) = conn s /\
+    synced (bcast s cs m) = synced s /\ used (bcast s cs m) = used s /\
+    sent (bcast s cs m) = sent s + N.of_nat (length cs).
+  Proof.
+    induction cs as [|c cs IH]; simpl.
+    - repeat split; lia.
+    - destruct IH as (-> & -> & -> & -> & ->). repeat split; lia.
+  Qed.
+
+  Lemma get_ents_bcast s cs m p : get_ents (bcast s cs m) p = get_ents s p.
+  Proof. unfold get_ents. by rewrite (proj1 (bcast_fields s cs m)). Qed.
+
+  Lemma get_link_bcast s cs m a b :
+    NoDup cs ->
+    get_link (bcast s cs m) a b =
+      if decide (a = 0 /\ b ∈ cs) then get_link s a b ++ [m] else get_link s a b.
+  Proof.
+    induction cs as [|c cs IH]; intros Hnd; simpl.
+    - destruct (decide _) as [[_ Hin]|]; [set_solver|done].
+    - apply NoDup_cons in Hnd as [Hc Hnd]. rewrite get_link_send, IH by done.
+      destruct (decide ((0, c) = (a, b))) as [Heq|Hne].
+      + injection Heq as <- <-.
+        rewrite decide_False by (intros [_ ?]; done).
+        rewrite decide_True by (split; [done|set_solver]). done.
+      + destruct (decide (a = 0 /\ b ∈ cs)) as [[-> Hin]|Hn].
+        * rewrite decide_True by (split; [done|set_solver]). done.
+        * rewrite decide_False; [done|]. intros [-> Hin]. apply Hn. split; [done|].
+          apply elem_of_cons in Hin as [->|]; [done|done].
+  Qed.
+End prims.
+
+Lemma others_spec s c x : x ∈ others s c <-> x <> c /\ x ∈ conn s.
+Proof. unfold others. apply elem_of_list_filter. Qed.
+
+Lemma others_NoDup s c : NoDup (conn s) -> NoDup (others s c).
+Proof. apply NoDup_filter. Qed.
